@@ -67,8 +67,9 @@ def gen(ctx):
     ctx.gen_info["sources"] = src_hashes([
         "myst_parser/mdit_to_docutils/sphinx_.py", "myst_parser/sphinx_ext/myst_refs.py",
         "myst_parser/mdit_to_docutils/base.py", "myst_parser/mdit_to_docutils/transforms.py"])
-    from gen import c12_links
+    from gen import c12_links, c12_src
     c12_links.generate(ctx)
+    c12_src.generate(ctx)
 
 
 # =========================================================================== project generator
@@ -153,6 +154,15 @@ def gen_project(rng, size=None):
             "builder": "dirhtml" if rng.random() < 0.3 else "html"}
     if rng.random() < 0.15:
         desc["nitpick"] = ["ignored-target", "nodoc-ignored"]
+    # configuration axis that touches links
+    cfg = {}
+    if rng.random() < 0.08:
+        cfg["all_links_external"] = True
+    if rng.random() < 0.15:
+        cfg["url_schemes"] = URL_SCHEMES + ["wiki"] + (["project"] if rng.random() < 0.3 else [])
+    if rng.random() < 0.15:
+        cfg["ref_domains"] = rng.choice([["std"], ["py"], ["std", "py"]])
+    desc["config"] = cfg
     # an ambiguous name now and then: a label equal to a root-level docname
     if rng.random() < 0.15:
         roots = [d for d in docs if "/" not in d["docname"] and d["ext"] == ".md" and d["docname"] != "index"]
@@ -288,22 +298,36 @@ def gen_links(rng, desc):
         n[0] += 1
         l = {"n": n[0], "form": form, "dest": dest, "text_md": text[0], "text_sig": text[1], "intent": intent}
         if cur_inc[0] is not None:
-            l["inc"] = cur_inc[0]
+            l["inc"] = {"path": cur_inc[0]["path"], "prefix": cur_inc[0]["prefix"]}   # effective relative-docs setting
+            l["infile"], l["where"] = cur_inc[0]["infile"], cur_inc[0]["where"]
         src["links"].append(l)
 
     contexts = []
     for src in mds:
         contexts.append((src, None))
         if rng.random() < 0.3:
-            # a file pulled in with {include} :relative-docs: <prefix> ; it lives in any directory
-            fdir = rng.choice(desc["dirs"])
-            inc = {"path": (fdir + "/" if fdir else "") + "part-%d.inc" % len(contexts),
-                   "prefix": rng.choice([".", "..", "../", "./"]), "images": rng.random() < 0.5}
-            contexts.append((src, inc))
+            # a file A pulled in with {include} :relative-docs: <prefix> ; it lives in any directory.  Sometimes A
+            # itself includes a file B (with its own :relative-docs: or without: then A's setting applies to B),
+            # and A goes on after that include (where A's setting must be in force again).
+            def frag(tag):
+                fdir = rng.choice(desc["dirs"])
+                return {"path": (fdir + "/" if fdir else "") + "part-%d%s.inc" % (len(contexts), tag),
+                        "prefix": rng.choice([".", "..", "../", "./"]), "images": rng.random() < 0.5}
+            A = frag("a")
+            src["frag"] = A
+            contexts.append((src, dict(A, infile=A["path"], where="A1")))
+            if rng.random() < 0.45:
+                B = frag("b")
+                if rng.random() < 0.35:
+                    B["prefix"] = None
+                A["nested"] = B
+                eff = B if B["prefix"] is not None else A
+                contexts.append((src, {"path": eff["path"], "prefix": eff["prefix"], "infile": B["path"], "where": "B"}))
+                contexts.append((src, dict(A, infile=A["path"], where="A2")))
     for src, inc in contexts:
         cur_inc[0] = inc
         own_dir = doc_dir(src["docname"])
-        for _ in range(per_doc if inc is None else rng.randint(4, 9)):
+        for _ in range(per_doc if inc is None else rng.randint(3, 7)):
             # inside an included file a path is read relative to the included file when it starts with the
             # prefix (it is rewritten), otherwise relative to the including document
             if inc is not None and rng.random() < 0.7:
@@ -438,7 +462,7 @@ def gen_links(rng, desc):
                 tgt = rng.choice(docs)
                 p = tgt["docname"] + tgt["ext"]
                 # ('//' + non-ASCII would make markdown-it's normalizeLink punycode the "host name" of the fallback id)
-                q = rng.choice(["//" + (p if p.isascii() else "a/one.md"), "///" + p, "", ".", "..", "/", p + "/",
+                q = rng.choice(["//" + (p if p.isascii() else "a/one.md"), "///" + p, "", ".", "..", "/", p + "/", "wiki:Some_Page",
                                 "../" * 5 + tgt["docname"],
                                 "foo:bar", "c:" + p, "./" + p + "#a#b", posixpath.dirname(p) or "a", "Project:" + p])
                 add(src, "inline", q, {"kind": "quirk"})
@@ -482,21 +506,34 @@ def render_doc(desc, doc):
         else:
             np += 1
             lines += ["Paragraph number %d." % np, ""]
-    incs = {}
     for l in doc["links"]:
         if l.get("inc"):
-            incs.setdefault(l["inc"]["path"], (l["inc"], []))[1].append(l)
             continue
         at[l["n"]] = len(lines) + 1
         lines += ["L%d %s" % (l["n"], link_md(l)), ""]
     frags = {}
-    for path, (inc, ls) in incs.items():
-        fl = []
-        for l in ls:
-            at[l["n"]] = len(fl) + 1
-            fl += ["L%d %s" % (l["n"], link_md(l)), ""]
-        frags[path] = "\n".join(fl) + "\n"
-        lines += ["```{include} /" + path, ":relative-docs: " + inc["prefix"]] + ([":relative-images:"] if inc.get("images") else []) + ["```", ""]
+    A = doc.get("frag")
+    if A and any(l.get("inc") for l in doc["links"]):
+        def include_block(f):
+            return (["```{include} /" + f["path"]] + ([":relative-docs: " + f["prefix"]] if f["prefix"] is not None else [])
+                    + ([":relative-images:"] if f.get("images") else []) + ["```", ""])
+
+        def put(fl, where):
+            for l in doc["links"]:
+                if l.get("where") == where:
+                    at[l["n"]] = len(fl) + 1
+                    fl += ["L%d %s" % (l["n"], link_md(l)), ""]
+        fa = []
+        put(fa, "A1")
+        B = A.get("nested")
+        if B and any(l.get("where") in ("B", "A2") for l in doc["links"]):
+            fb = []
+            put(fb, "B")
+            frags[B["path"]] = "\n".join(fb) + "\n"
+            fa += include_block(B)
+            put(fa, "A2")
+        frags[A["path"]] = "\n".join(fa) + "\n"
+        lines += include_block(A)
     doc["_frags"] = frags
     if doc["docname"] == "index":
         lines += ["```{toctree}", ":hidden:", ""] + [d["docname"] for d in desc["docs"] if d["docname"] != "index"] + ["```", ""]
@@ -515,13 +552,20 @@ def project_files(desc):
     conf = CONF
     if desc.get("nitpick"):
         conf += "nitpick_ignore = %r\n" % [("myst", t) for t in desc["nitpick"]]
+    cfg = desc.get("config") or {}
+    if cfg.get("all_links_external"):
+        conf += "myst_all_links_external = True\n"
+    if cfg.get("url_schemes"):
+        conf += "myst_url_schemes = %r\n" % cfg["url_schemes"]
+    if cfg.get("ref_domains"):
+        conf += "myst_ref_domains = %r\n" % cfg["ref_domains"]
     files["conf.py"] = conf
     return files, lines
 
 
 def link_file(doc, l):
     """the source file a link is written in (the included file for links of an {include}d fragment)"""
-    return l["inc"]["path"] if l.get("inc") else doc["docname"] + doc["ext"]
+    return l.get("infile") or (l["inc"]["path"] if l.get("inc") else doc["docname"] + doc["ext"])
 
 
 def page_uri(desc, docname):
@@ -777,8 +821,10 @@ def children_sig(l):
 
 def model_line(desc, obs):
     src = [s for s in obs["srcdir"].split("/") if s]
-    toks = ["run", "S", enc_strs(src), enc_strs(SUFFIXES), enc_strs(desc.get("nitpick", [])), enc_strs(URL_SCHEMES),
-            "1" if desc.get("builder") == "dirhtml" else "0"]
+    cfg = desc.get("config") or {}
+    toks = ["run", "S", enc_strs(src), enc_strs(SUFFIXES), enc_strs(desc.get("nitpick", [])),
+            enc_strs(cfg.get("url_schemes") or URL_SCHEMES),
+            "1" if desc.get("builder") == "dirhtml" else "0", "1" if cfg.get("all_links_external") else "0"]
     files, _ = project_files(desc)
     for f in files:
         toks += ["F", enc_strs(f.split("/"))]
@@ -861,7 +907,8 @@ def check_env(ctx, desc, obs):
     exp_labels = sorted([n, dn, i, s] for (n, dn, i, s) in BUILTIN_LABELS + labs if s is not None)
     exp_anon = sorted([n, dn, i] for (n, dn, i, s) in BUILTIN_LABELS + labs)
     got = [env["all_docs"], env["titles"], env["slugs"], env["labels"], env["anonlabels"], env["suffixes"], env["url_schemes"]]
-    want = [exp_docs, exp_titles, exp_slugs, exp_labels, exp_anon, SUFFIXES, sorted(URL_SCHEMES)]
+    want = [exp_docs, exp_titles, exp_slugs, exp_labels, exp_anon, SUFFIXES,
+            sorted((desc.get("config") or {}).get("url_schemes") or URL_SCHEMES)]
     names = ["all_docs", "titles", "myst_slugs", "labels", "anonlabels", "source_suffix", "url_schemes"]
     ok = True
     for nme, g, w in zip(names, got, want):
@@ -1187,6 +1234,15 @@ def expect(desc, src_doc, l):
     k = it["kind"]
     docs = {d["docname"]: d for d in desc["docs"]}
     explicit = l["form"] != "auto" and bool(l["text_md"])
+    cfg = desc.get("config") or {}
+    # Reading of the property w.r.t. configuration: it speaks about MyST's link resolution.  myst_all_links_external
+    # switches that off for every link, and a scheme listed in myst_url_schemes makes links of that scheme external
+    # URLs by the user's choice: no claim there.  myst_ref_domains only filters the other domains / inventories
+    # (labels and documents are always tried), so the expectations are unchanged under it.
+    if cfg.get("all_links_external"):
+        return None
+    if "project" in (cfg.get("url_schemes") or []) and l["dest"].startswith("project:"):
+        return None
     if k == "doc":
         t = docs[it["doc"]]
         return {"doc": it["doc"], "frag": None, "text": l["text_sig"] if explicit else t["title"], "missing": 0}
